@@ -33,6 +33,9 @@ def gen_case(st, tier, env):
     n = k.randint(1, 8) if tier == "quick" or k.random() < 0.8 else k.randint(9, 14)
     m = k.randint(1, 5) if k.random() < 0.94 else k.randint(6, 200)  # the statement says "every number of rankings"
     steps = k.choice([0, 1, 2, 5, 20, 200, 10 * n, 3 * n])
+    if k.random() < 0.012:
+        # integer-width corners of the bucket-id vector: a few hundred elements, few short walks
+        n, m, steps = k.choice([127, 128, 129, 130, 200, 255, 256, 257, 300]), k.randint(1, 2), k.choice([0, 1, 5])
     if m > 5:  # many rankings: keep each walk short
         n, steps = min(n, 5), k.choice([0, 1, 5, 10])
     complete = k.random() < 0.5
